@@ -35,7 +35,7 @@ RULE = ("programs as in C01 whose bodies also attach details under names from {t
         "details, use 0-2 fixtures carrying 0-2 details (ok / failing old style / failing with SetupError), raise 0-4 "
         "exceptions, register 0-2 addOnException handlers, and change cells (payloads: empty, multi-chunk, not UTF-8); "
         "non-trivial = a detail-attaching statement together with a raising statement, or two detail sources with the "
-        "same base name; distinct = distinct JSON")
+        "same base name; distinct = distinct JSON; plus fixtures one of whose details cannot be evaluated when it is gathered, @unittest.expectedFailure tests ending in every behaviour, force_failure set on the failed-setUp path")
 TRUSTED = ["the recording subclass of doubles.ExtendedTestResult reads each content's bytes when the outcome call "
            "arrives", "fixtures.Fixture getDetails/setUp/cleanUp (fixtures 4.3.2) is modelled, not verified"]
 ASSUMPTIONS = ["the result object and addOnException handlers do not raise",
@@ -47,7 +47,7 @@ EXPLANATION = ("Theorems in coq/Props/C05.v over all programs; correspondence: T
                "details passed with the outcome (base name + payload read at that moment, traceback count) and on the "
                "addOnException handler calls and their position relative to the outcome.")
 
-FEATS = frozenset(["details", "fixture", "onexc", "cells"])
+FEATS = frozenset(["details", "fixture", "onexc", "cells", "badfx"])
 
 
 def drive(case):
@@ -119,6 +119,12 @@ def generate(rng, tier):
     # force_failure set in setUp / in a cleanup, setUp ending in every behaviour (fix 889980a): the forced failure
     # gets its traceback, the expectation's details and "Failed expectation" arrive
     for p, _ in R.setup_force_programs(details=True):
+        cases.append({"prog": p})
+    # fixtures with a detail that cannot be evaluated when it is gathered: what was gathered before it arrives
+    for p, _ in R.badfx_programs():
+        cases.append({"prog": p})
+    # @unittest.expectedFailure tests: the traceback of what the wrapper turns into an expected failure
+    for p, _ in R.xfail_programs():
         cases.append({"prog": p})
     n = 5000 if tier == "quick" else 90000
     for k in range(n):
